@@ -234,6 +234,16 @@ func (d *duplexHTTPCall) SetError(err error) {
 	//
 	// It's safe to ignore the returned error here. Under the hood, Close calls
 	// CloseWithError, which is documented to always return nil.
+	if errors.Is(err, io.EOF) {
+		// The response ended normally, but net/http may not have finished reading
+		// the request body yet. Closing the read side of the pipe would make that
+		// read fail, and net/http would then abort the stream - possibly before it
+		// has seen the end of the response, turning a successful call into a
+		// failure. End the request body cleanly instead; writes still fail with
+		// io.ErrClosedPipe, which Write reports as io.EOF.
+		_ = d.requestBodyWriter.Close()
+		return
+	}
 	_ = d.requestBodyReader.Close()
 }
 
